@@ -79,6 +79,7 @@ type scn struct {
 	spelling    string
 	signal      int // 0 content-length n, 1 content-length 0, 2 chunked, 3 neither
 	body        []byte
+	noBodyParam bool // the operation declares only a query parameter
 	handMade    bool // the MatchedRoute given to both entry points is filled through its exported fields (a custom Router)
 	mixedReg    bool // consumers are registered under a mixed-case spelling, over an earlier lower-case registration
 	stream      int  // 0 plain 1 zero-length reads first 2 first byte with EOF 3 error before first byte 4 error after first byte 5 empty 6 the first read fails once (a timeout), the data follows
@@ -149,6 +150,7 @@ func generate(t *kernel.Tape) *scn {
 	if s.signal == 2 {
 		s.stream = t.Weighted("stream", 3, 2, 2, 2, 2, 2, 2)
 	}
+	s.noBodyParam = t.Bool(5, "operation-without-a-body-parameter")
 	s.handMade = t.Bool(5, "hand-made-matched-route")
 	s.mixedReg = t.Bool(5, "mixed-case-registration")
 	if s.signal == 0 {
@@ -257,6 +259,10 @@ func (prop) Run(t *testing.T, tape *kernel.Tape, sc kernel.Scenario) *kernel.Res
 		{Name: "q", In: "query", Type: "string"},
 		{Name: "payload", In: "body"},
 	}}
+	if s.noBodyParam {
+		// the operation declares no body or form parameter; a request that carries a body is checked all the same
+		op.Params = op.Params[:1]
+	}
 	if s.consumes == nil {
 		op.Consumes = []string{}
 	}
